@@ -291,3 +291,136 @@ def fam_sync_core(tier="quick"):
     c1 = ["lk 0 ; st 2 1 sc ; ul 0 ; n1 1", "n1 1", "na 1"]
     L += exhaustive("syC", ["M", "C", "A0"], [c0, c1], 2)
     return L
+
+
+def fam_dead_core(tier="quick"):
+    """F-dead: blocking primitives, early/late/double wake-ups, lock order."""
+    big = tier != "quick"
+    L = []
+    # lock-order deadlocks (with a visible operation inside every critical section)
+    d1 = ["lk 0 ; st 2 1 sc ; lk 1 ; st 2 2 sc ; ul 1 ; ul 0", "lk 1 ; st 2 3 sc ; lk 0 ; st 2 4 sc ; ul 0 ; ul 1", "lk 0 ; st 2 5 sc ; ul 0"]
+    L += exhaustive("ddM", ["M", "M", "A0"], [d1, d1], 1)
+    L += exhaustive("ddM3", ["M", "M", "A0"], [d1[:1], d1[1:2], d1], 1)
+    # channel: recv without send, send/recv counts
+    h0 = ["rv 0", "trv 0", "sd 0 9"]
+    h1 = ["sd 0 1", "sd 0 2 ; sd 0 3"]
+    L += exhaustive("ddH", ["H"], [h0, h1], 2, main_post=["drx 0"])
+    # notify: wait with / without notification, double notify
+    n0 = ["nw 0", "nw 0 ; nw 0"]
+    n1 = ["nn 0", "nn 0 ; nn 0", "st 1 1 sc"]
+    L += exhaustive("ddN", ["N", "A0"], [n0, n1], 1)
+    # park / unpark, including unpark of a thread blocked on a join or a lock
+    p0 = ["pk", "pk ; pk", "ld 0 sc"]
+    p1 = ["up 0", "up 0 ; up 0", "st 0 1 sc ; up 0", "up 0 ; st 0 1 sc"]
+    L += exhaustive("ddP", ["A0"], [p0, p1], 1)
+    L += exhaustive("ddPj", ["A0"], [[], p1], 1)
+    pm0 = ["lk 1 ; st 0 1 sc ; ul 1", "lk 1 ; st 0 1 sc ; ul 1 ; pk"]
+    pm1 = ["lk 1 ; st 0 2 sc ; ul 1 ; up 0", "up 0 ; lk 1 ; st 0 2 sc ; ul 1", "lk 1 ; up 0 ; st 0 2 sc ; ul 1"]
+    L += exhaustive("ddPm", ["A0", "M"], [pm0, pm1], 1)
+    # condvar: lost wake-up, notify before wait, notify_all
+    c0 = ["lk 0 ; wt 1 0 ; ul 0", "lk 0 ; ld 2 sc ; ul 0 ; lk 0 ; wt 1 0 ; ul 0"]
+    c1 = ["n1 1", "na 1", "lk 0 ; st 2 1 sc ; ul 0 ; n1 1", "n1 1 ; n1 1"]
+    L += exhaustive("ddC", ["M", "C", "A0"], [c0, c1], 1)
+    L += exhaustive("ddC3", ["M", "C", "A0"], [c0[:1], c0[:1], c1], 1)
+    # rwlock
+    r0 = ["rd 0 ; ld 1 sc ; urd 0", "wr 0 ; st 1 1 sc ; uwr 0", "rd 0 ; ld 1 sc ; wr 0 ; uwr 0 ; urd 0"]
+    L += exhaustive("ddR", ["R", "A0"], [r0[:2], r0], 1)
+    # join cycles are impossible (handles are owned by main); join of a blocked thread
+    return L
+
+
+def fam_lock_core(tier="quick"):
+    """F-lock (C07): up to two mutexes and an rwlock, nested / overlapping
+    sections, cells inside the sections to observe exclusion and hand-over."""
+    big = tier != "quick"
+    L = []
+    m = ["lk 0 ; cw 1 ; ul 0", "lk 0 ; cr 1 ; ul 0", "tl 0 ; cr 1 ; ul 0"]
+    L += exhaustive("lkM", ["M", "U"], [m, m], 2, stride=1 if big else 2)
+    L += exhaustive("lkM3", ["M", "U"], [m[:1], m[:2], m], 1)
+    mm = ["lk 0 ; cw 2 ; lk 1 ; cw 3 ; ul 1 ; ul 0", "lk 1 ; cr 3 ; ul 1", "lk 0 ; cr 2 ; ul 0 ; lk 1 ; cw 3 ; ul 1"]
+    L += exhaustive("lkMM", ["M", "M", "U", "U"], [mm, mm], 1)
+    r = ["rd 0 ; cr 1 ; urd 0", "wr 0 ; cw 1 ; uwr 0", "trd 0 ; cr 1 ; urd 0", "twr 0 ; cw 1 ; uwr 0"]
+    L += exhaustive("lkR", ["R", "U"], [r, r], 2 if big else 1)
+    L += exhaustive("lkR3", ["R", "U"], [r[:2], r[:2], r], 1)
+    # critical sections with a visible operation inside (a scheduling point)
+    v = ["lk 0 ; st 1 1 sc ; st 1 2 sc ; ul 0", "tl 0 ; ld 1 sc ; ul 0", "lk 0 ; ld 1 sc ; ul 0"]
+    L += exhaustive("lkV", ["M", "A0"], [v, v], 1)
+    return L
+
+
+def fam_wait_core(tier="quick"):
+    """F-wait (C08): condvar, notify, park, join."""
+    big = tier != "quick"
+    L = []
+    c0 = ["lk 0 ; wt 1 0 ; cr 2 ; ul 0", "lk 0 ; cr 2 ; ul 0"]
+    c1 = ["lk 0 ; cw 2 ; ul 0 ; n1 1", "lk 0 ; cw 2 ; n1 1 ; ul 0", "lk 0 ; cw 2 ; ul 0 ; na 1"]
+    L += exhaustive("wtC", ["M", "C", "U"], [c0, c1], 1)
+    L += exhaustive("wtC3", ["M", "C", "U"], [c0[:1], c0[:1], c1], 1)
+    n0 = ["nw 0 ; cr 1", "nw 0 ; nw 0 ; cr 1"]
+    n1 = ["cw 1 ; nn 0", "cw 1 ; nn 0 ; nn 0"]
+    L += exhaustive("wtN", ["N", "U"], [n0, n1], 1)
+    p0 = ["pk ; cr 0", "ld 1 sc ; pk ; cr 0"]
+    p1 = ["cw 0 ; up 0", "cw 0 ; st 1 1 sc ; up 0"]
+    L += exhaustive("wtP", ["U", "A0"], [p0, p1], 1)
+    # join: the child's writes are visible after join
+    L += exhaustive("wtJ", ["U"], [[], ["cw 0"]], 1, main_post=["cr 0"])
+    L += exhaustive("wtJ3", ["U", "U"], [[], ["cw 0"], ["cw 1"]], 1, main_post=["cr 0", "cr 1"])
+    return L
+
+
+def fam_chan_core(tier="quick"):
+    """F-chan (C09): 1-3 senders and a receiver."""
+    big = tier != "quick"
+    L = []
+    h0 = ["rv 0", "trv 0", "rv 0 ; rv 0"]
+    h1 = ["sd 0 1", "sd 0 1 ; sd 0 2", "cw 1 ; sd 0 3"]
+    h2 = ["sd 0 4", "cw 2 ; sd 0 5"]
+    L += exhaustive("chA", ["H", "U", "U"], [h0, h1], 2, main_post=["drx 0"], stride=1 if big else 2)
+    L += exhaustive("chB", ["H", "U", "U"], [h0, h1, h2], 1, main_post=["drx 0"])
+    L += exhaustive("chC", ["H", "U", "U"], [["rv 0 ; cr 1", "rv 0 ; rv 0 ; cr 1 ; cr 2"], h1[2:], h2[1:]], 1, main_post=["drx 0"])
+    L += exhaustive("chD", ["H"], [["rv 0"], ["sd 0 1"], ["sd 0 2"], ["sd 0 3"]], 1, main_post=["trv 0", "trv 0", "drx 0"])
+    return L
+
+
+def fam_leak_core(tier="quick"):
+    """F-leak (C10): Arc handles, tracked allocations, channel contents."""
+    L = []
+    a0 = ["ad 0 0", "ac 0 0 1 ; ad 0 1", "ac 0 0 1", "au 0 0"]
+    a1 = ["ad 0 2", "ac 0 2 3 ; ad 0 3 ; ad 0 2", "au 0 2", "ld 1 sc"]
+    L += exhaustive("lkA", ["K", "A0"], [a0, a1], 1, main_pre=["ac 0 0 2"])
+    t0 = ["td 0", "ld 2 sc"]
+    t1 = ["td 1", "st 2 1 sc"]
+    L += exhaustive("lkT", ["T", "T", "A0"], [t0, t1], 1)
+    h0 = ["rv 0", "trv 0"]
+    h1 = ["sd 0 1", "sd 0 1 ; sd 0 2"]
+    L += exhaustive("lkH", ["H"], [h0, h1], 2)
+    L += exhaustive("lkHd", ["H"], [h0, h1], 2, main_post=["drx 0"])
+    return L
+
+
+def fam_arc_core(tier="quick"):
+    """F-arc (C11): clone, inspect, unwrap, drop in 2-3 threads."""
+    big = tier != "quick"
+    L = []
+    a0 = ["an 0 0", "ag 0 0", "au 0 0", "ad 0 0", "ac 0 0 1 ; ad 0 1"]
+    a1 = ["an 0 2", "ag 0 2", "au 0 2", "ad 0 2", "ac 0 2 3 ; ad 0 3"]
+    L += exhaustive("arA", ["K"], [a0, a1], 2, main_pre=["ac 0 0 2"], main_post=["ad 0 0", "ad 0 2"], stride=1 if big else 2)
+    a2 = ["an 0 4", "ad 0 4"]
+    L += exhaustive("arB", ["K"], [a0[:2], a1[2:], a2], 1, main_pre=["ac 0 0 2", "ac 0 0 4"], main_post=["ad 0 0", "ad 0 2", "ad 0 4"])
+    return L
+
+
+def fam_spin_core(tier="quick"):
+    """F-spin (C18): one await loop over atomics written once by another thread."""
+    L = []
+    for o_st in ("rlx", "rel", "sc"):
+        for o_ld in ("rlx", "acq", "sc"):
+            w = [f"st 0 1 {o_st}", f"st 1 7 rlx ; st 0 1 {o_st}", f"st 0 1 {o_st} ; st 1 7 rlx"]
+            s = [f"aw 0 1 {o_ld}", f"aw 0 1 {o_ld} ; ld 1 rlx", f"ld 1 rlx ; aw 0 1 {o_ld}"]
+            L += exhaustive(f"sp{o_st}{o_ld}a", ["A0", "A0"], [s, w], 1)
+            L += exhaustive(f"sp{o_st}{o_ld}b", ["A0", "A0"], [w, s], 1)
+    # a third thread that only reads
+    L += exhaustive("sp3", ["A0", "A0"], [["aw 0 1 acq ; ld 1 rlx"], ["st 1 7 rlx ; st 0 1 rel"], ["ld 0 rlx", "ld 1 rlx"]], 1)
+    # a loop whose condition can never hold: branch limit, small max_branches to keep it short
+    L += exhaustive("spNever", ["A0"], [["aw 0 5 acq"], ["st 0 1 rel"]], 1, mb=60)
+    return L
